@@ -44,7 +44,7 @@ def sh_expand(word_bytes, cwd):
     script = b"set -- " + word_bytes + b"\nfor a do printf '%s\\0' \"$a\"; done\n"
     try:
         p = subprocess.run(["/bin/sh", "-c", script], cwd=cwd, stdout=subprocess.PIPE, stderr=subprocess.PIPE, timeout=10,
-                           env={"PATH": "/usr/bin:/bin", "x": "XVAL"})
+                           env={"PATH": "/usr/bin:/bin", "x": "XVAL", "HOME": "/verif-home", "IFS": " \t\n"})
     except subprocess.TimeoutExpired:
         return None
     if p.returncode != 0:
@@ -139,7 +139,7 @@ def source_oracle(doc, out_bytes, cwd):
     script = ". ./out.sh || exit 97\n" + "".join("printf '%%s\\0' \"$%s\"\n" % nm if _name_ok(nm) else "exit 98\n" for nm in names)
     try:
         p = subprocess.run(["/bin/sh", "-c", script], cwd=cwd, stdout=subprocess.PIPE, stderr=subprocess.PIPE, timeout=10,
-                           env={"PATH": "/usr/bin:/bin"})
+                           env={"PATH": "/usr/bin:/bin", "HOME": "/verif-home"})
     except subprocess.TimeoutExpired:
         return False, "timeout"
     pwned = os.path.exists(os.path.join(cwd, "PWNED"))
